@@ -26,8 +26,13 @@ type LeveldbDiskStorage struct {
 
 // Create a new table, destroying any existing table.
 func (f LeveldbDiskStorage) Create(tbl *btapb.Table) Rows {
-	f.SetTableMeta(tbl)
 	path := filepath.Join(f.Root, tbl.Name)
+	// Remove what an earlier table of this name may have left behind before the definition becomes
+	// visible: a process killed right after SetTableMeta must not restart with the old rows.
+	if err := os.RemoveAll(path); err != nil {
+		f.errLog(err, "os.RemoveAll %q", path)
+	}
+	f.SetTableMeta(tbl)
 	newFunc := func(nuke bool) *leveldb.DB {
 		return newDiskDb(path, nuke)
 	}
